@@ -10,8 +10,12 @@ EXTENDS Naturals, Sequences, FiniteSets, TLC, Json
 HttpMethods == {"POST", "GET", "PUT"}
 Paths == {"/", "/health", "/metrics", "/api/v1/slot-to-cid/K", "/api/v1/sig-to-cid/K", "/api/v1/unknown", "/other"}
 Bodies == {"empty", "garbage", "truncated", "array", "null", "number", "string", "oversize", "object"}
+\* unknown method names are echoed into error replies, logs and metric labels: length classes around the 64-byte cut of
+\* the label sanitiser, non-ASCII runes (2, 3, 4 bytes wide) starting at each byte position around that cut, control bytes
+LongUnknown == {"unknown:long", "unknown:nonascii", "unknown:control", "unknown:mb2@62", "unknown:mb2@63", "unknown:mb3@61", "unknown:mb3@62",
+                "unknown:mb3@63", "unknown:mb4@60", "unknown:mb4@61", "unknown:mb4@62", "unknown:mb4@63", "unknown:mb2@127", "unknown:mb3@254"}
 Methods == {"getBlock", "getTransaction", "getSignaturesForAddress", "getBlockTime", "getGenesisHash",
-            "getFirstAvailableBlock", "getSlot", "getVersion", "unknown", "nonstring", "absent"}
+            "getFirstAvailableBlock", "getSlot", "getVersion", "unknown", "nonstring", "absent"} \cup LongUnknown
 \* shape of "params"
 ParamShapes == {"absent", "null", "emptyarray", "object", "string", "number", "array"}
 \* first element when params is a non-empty array
@@ -35,12 +39,13 @@ Init == /\ epochs \in Epochs
               /\ IF pshape = "array" THEN first \in Firsts /\ second \in Seconds ELSE first = "null" /\ second = "none"
               \* ids other than int are only crossed with one parameter shape (they do not interact)
               /\ (id # "int" => pshape \in {"absent", "emptyarray"})
+              /\ (method \in LongUnknown => pshape = "absent" /\ id = "int")
 Next == UNCHANGED vars
 Spec == Init /\ [][Next]_vars
 NeedsParams == {"getBlock", "getTransaction", "getSignaturesForAddress", "getBlockTime"}
 Expect == IF kind = "transport" THEN "http"
           ELSE IF kind = "body" THEN (IF body = "oversize" THEN "http" ELSE "parse")
-          ELSE IF method \in {"unknown", "nonstring", "absent"} THEN "nomethod"
+          ELSE IF method \in {"unknown", "nonstring", "absent"} \cup LongUnknown THEN "nomethod"
           ELSE IF method \notin NeedsParams THEN "handled"
           ELSE IF pshape # "array" THEN "params"
           ELSE IF method \in {"getBlock", "getBlockTime"} /\ first \notin {"int-archived", "int-absent", "negative", "fraction", "huge"} THEN "params"
